@@ -175,6 +175,80 @@ example :
     (loadingAt E B () (loadingAt E B () ⟨none, none⟩ ⟨"ads", "linear", none⟩ ()).2 ⟨"ads", "cubic", none⟩ ()) =
       ("ValueError", ⟨some ⟨"ads", "linear", none⟩, none⟩) := by decide
 
+
+/-! ## The defect class "change the fill of the cached interpolator in place": transparent iff a relabelled object behaves like a rebuilt one -/
+
+section RetargetSec
+open Retarget
+
+omit [DecidableEq φ] in
+/-- whatever was cached, after the step the cached object CLAIMS the requested key (so the recorded key of the real object cannot show the defect) -/
+theorem retarget_step_label (c : Option (Cached φ)) (k : Key φ) : label (step c k) = k ∧ (step c k).fill = k.fill := by
+  cases c with
+  | none => exact ⟨by cases k; rfl, rfl⟩
+  | some c =>
+    unfold step
+    by_cases h : (c.built.branch != k.branch || c.built.kind != k.kind) = true
+    · simp only [h, ↓reduceIte]
+      refine ⟨?_, ?_⟩ <;> trivial
+    · simp only [h, Bool.false_eq_true, ↓reduceIte, and_true]
+      simp only [Bool.not_eq_true, Bool.or_eq_false_iff, bne_eq_false_iff_eq] at h
+      obtain ⟨⟨b, kd, f⟩, f'⟩ := c
+      obtain ⟨b', kd', f''⟩ := k
+      simp only [label] at h ⊢
+      obtain ⟨h1, h2⟩ := h
+      simp_all
+
+omit [DecidableEq φ] in
+/-- under `FillSeparable` the shortcut returns what an interpolator BUILT for the requested key returns, on any cache -/
+theorem retarget_outcome (EI : ο → Key φ → Option φ → χ → ρ) (hs : FillSeparable EI) (o : ο) (c : Option (Cached φ)) (k : Key φ) (x : χ) :
+    (Retarget.loadingAt EI o c k x).1 = EI o k k.fill x := by
+  unfold Retarget.loadingAt
+  simp only
+  rw [hs o (step c k).built (step c k).fill x]
+  have h := retarget_step_label c k
+  unfold label at h
+  rw [h.1, h.2]
+
+omit [DecidableEq φ] in
+/-- ... hence history independence of the shortcut under `FillSeparable` -/
+theorem retarget_history_free (EI : ο → Key φ → Option φ → χ → ρ) (hs : FillSeparable EI) (o : ο) (qs : List (Key φ × χ)) (k : Key φ) (x : χ) :
+    (Retarget.loadingAt EI o (Retarget.after EI o none qs) k x).1 = (Retarget.loadingAt EI o none k x).1 := by
+  rw [retarget_outcome EI hs, retarget_outcome EI hs]
+
+/-- an interpolator like scipy's `interp1d`: the abscissa is inside the data range (`true`) or not; an object BUILT with
+`'extrapolate'` extrapolates whatever fill it is given later (the flag set at construction survives), an object built otherwise
+clamps when it is told to extrapolate later (the code path was bound at construction) -/
+def scipyLike : Unit → Key (Fill ℕ) → Option (Fill ℕ) → Bool → String := fun _ built f inside =>
+  if inside then "interpolated"
+  else if built.fill = some .extrapolate then "extrapolated"
+  else match f with
+    | none => "ValueError"
+    | some .extrapolate => "clamped"
+    | some _ => "fill value"
+
+/-- **the condition is necessary** (seeded change seedout5/C04-m2): with an interpolator like scipy's the shortcut (A) extrapolates where the
+same call on a fresh isotherm raises, after one call with `'extrapolate'`, and (B) clamps where the same call on a fresh isotherm
+extrapolates, after one ordinary call — while inside the range, and for number / pair fills, nothing shows -/
+theorem fillSeparable_necessary :
+    ¬ FillSeparable scipyLike ∧
+    (Retarget.loadingAt scipyLike () (Retarget.after scipyLike () none [(⟨"ads", "linear", some .extrapolate⟩, false)]) ⟨"ads", "linear", none⟩ false).1
+      ≠ (Retarget.loadingAt scipyLike () none ⟨"ads", "linear", none⟩ false).1 ∧
+    (Retarget.loadingAt scipyLike () (Retarget.after scipyLike () none [(⟨"ads", "linear", none⟩, true)]) ⟨"ads", "linear", some .extrapolate⟩ false).1
+      ≠ (Retarget.loadingAt scipyLike () none ⟨"ads", "linear", some .extrapolate⟩ false).1 ∧
+    (Retarget.loadingAt scipyLike () (Retarget.after scipyLike () none [(⟨"ads", "linear", some (.pair 0 20)⟩, false)]) ⟨"ads", "linear", some (.value 3)⟩ false).1
+      = (Retarget.loadingAt scipyLike () none ⟨"ads", "linear", some (.value 3)⟩ false).1 := by
+  refine ⟨?_, by decide, by decide, by decide⟩
+  intro h
+  exact absurd (h () ⟨"ads", "linear", some .extrapolate⟩ none false) (by decide)
+
+/-- non-vacuity of `retarget_history_free`: an interpolator whose behaviour outside the range depends on the CURRENT fill only -/
+example : FillSeparable (fun (_ : Unit) (_ : Key (Fill ℕ)) (f : Option (Fill ℕ)) (inside : Bool) => if inside then "interpolated" else if f = none then "ValueError" else "filled") := by
+  intro o k f x
+  rfl
+
+end RetargetSec
+
 /-! ## Generic principle: hidden state that keeps an invariant and never reaches the outcome is invisible -/
 
 section Generic
@@ -303,6 +377,95 @@ example : (Thermo.run ({ witnessWorld with policy := alwaysUpdate }) ()
 
 end ThermoSec
 
+
+/-! ## The defect class "memoise under a coarsened argument": transparent iff the coarsened key determines the value -/
+
+section ThermoKeyedSec
+open Thermo ThermoKeyed
+variable {οa ρa κa : Type} [DecidableEq κa]
+
+omit [DecidableEq φ] in
+/-- on a sound table the keyed accessor returns what CoolProp returns for exactly the requested flash (or the dictionary fallback) -/
+theorem keyed_outcome (w : Thermo.World φ οa ρa) (hp : FullUpdate w.policy) (coarse : Flash φ → κa) (name key : String) (o : οa)
+    (h : ThermoKeyed.Hidden φ κa ρa) (hs : ThermoKeyed.Sound w coarse name o h) (f : Flash φ) :
+    (ThermoKeyed.run w coarse name key o h f).1 = (match w.F o f name with | some v => .ok v | none => lookupOut w o key) := by
+  unfold ThermoKeyed.run
+  cases hl : h.2.lookup (coarse f) with
+  | some v => simp only [hs f v hl]
+  | none =>
+    simp only [flashRead_eq w hp]
+    cases w.F o f name <;> rfl
+
+omit [DecidableEq φ] in
+theorem keyed_preserves_obs (w : Thermo.World φ οa ρa) (coarse : Flash φ → κa) (name key : String) (o : οa)
+    (h : ThermoKeyed.Hidden φ κa ρa) (f : Flash φ) : (ThermoKeyed.run w coarse name key o h f).2.1 = o := by
+  unfold ThermoKeyed.run
+  cases h.2.lookup (coarse f) with
+  | some v => rfl
+  | none => cases (flashRead w o (backend h.1) f name).1 <;> rfl
+
+omit [DecidableEq φ] in
+/-- the table stays sound when the coarsened key determines the value -/
+theorem keyed_sound (w : Thermo.World φ οa ρa) (hp : FullUpdate w.policy) (coarse : Flash φ → κa) (name key : String)
+    (hc : CoarseDetermines w coarse name) (o : οa) (h : ThermoKeyed.Hidden φ κa ρa) (hs : ThermoKeyed.Sound w coarse name o h) (f : Flash φ) :
+    ThermoKeyed.Sound w coarse name o (ThermoKeyed.run w coarse name key o h f).2.2 := by
+  unfold ThermoKeyed.run
+  cases hl : h.2.lookup (coarse f) with
+  | some v => exact hs
+  | none =>
+    simp only [flashRead_eq w hp]
+    cases hF : w.F o f name with
+    | none => exact hs
+    | some v =>
+      intro f' v' hv'
+      simp only [List.lookup_cons] at hv'
+      by_cases e : coarse f' = coarse f
+      · simp only [e, beq_self_eq_true] at hv'
+        cases hv'
+        rw [hc o f' f e, hF]
+      · have : (coarse f' == coarse f) = false := by simpa using e
+        simp only [this] at hv'
+        exact hs f' v' hv'
+
+omit [DecidableEq φ] in
+/-- **a keyed memo is invisible when the key determines the value**: after any sequence of calls the adsorbate is unchanged and every call
+returns what it returns on a fresh adsorbate (no state, empty table) -/
+theorem keyed_history_free (w : Thermo.World φ οa ρa) (hp : FullUpdate w.policy) (coarse : Flash φ → κa) (name key : String)
+    (hc : CoarseDetermines w coarse name) (o : οa) (fs : List (Flash φ)) (f : Flash φ) :
+    (afterG (ThermoKeyed.run w coarse name key) (o, (none, [])) fs).1 = o ∧
+    (ThermoKeyed.run w coarse name key (afterG (ThermoKeyed.run w coarse name key) (o, (none, [])) fs).1
+        (afterG (ThermoKeyed.run w coarse name key) (o, (none, [])) fs).2 f).1 = (ThermoKeyed.run w coarse name key o (none, []) f).1 :=
+  history_free_of_invariant (ThermoKeyed.run w coarse name key) (ThermoKeyed.Sound w coarse name)
+    (keyed_preserves_obs w coarse name key) (fun o h q hs => keyed_sound w hp coarse name key hc o h hs q)
+    (fun o h h' q hs hs' => by rw [keyed_outcome w hp coarse name key o h hs q, keyed_outcome w hp coarse name key o h' hs' q])
+    o (none, []) (fun f v hv => by simp at hv) fs f
+
+/-- saturation pressure as a strictly increasing function of the temperature (both in integer units: mK, Pa) -/
+def p0World : Thermo.World ℕ Unit ℕ := ⟨fun _ f _ => some (13 * f.v2), fun _ _ => none, fun _ _ => none, fun l => l.headD 0, alwaysUpdate⟩
+
+/-- `round(temp, 1)`: the temperature in mK coarsened to 0.1 K -/
+def tenthKelvin (f : Flash ℕ) : ℕ := f.v2 / 100
+
+/-- **the condition is necessary** (seeded change seedout5/C04-m1, memo on `round(temp, 1)`): the saturation pressure at 77.344 K asked after
+the one at 77.300 K on the same adsorbate object is the one of 77.300 K; asked first it is the one of 77.344 K -/
+theorem coarseKey_necessary :
+    ¬ CoarseDetermines p0World tenthKelvin "p" ∧
+    (ThermoKeyed.run p0World tenthKelvin "p" "saturation_pressure" ()
+        (afterG (ThermoKeyed.run p0World tenthKelvin "p" "saturation_pressure") ((), (none, [])) [⟨"QT", 0, 77300⟩]).2 ⟨"QT", 0, 77344⟩).1
+      ≠ (ThermoKeyed.run p0World tenthKelvin "p" "saturation_pressure" () (none, []) ⟨"QT", 0, 77344⟩).1 := by
+  constructor
+  · intro h
+    exact absurd (h () ⟨"QT", 0, 77300⟩ ⟨"QT", 0, 77344⟩ (by decide)) (by decide)
+  · decide
+
+/-- non-vacuity of `keyed_history_free`: the exact argument as the key -/
+example : CoarseDetermines p0World (fun f => f) "p" := by
+  intro o f f' h
+  have h' : f = f' := h
+  rw [h']
+
+end ThermoKeyedSec
+
 /-! ## The defect class "memoise into the public dictionary": witnesses -/
 
 section MemoSec
@@ -394,6 +557,32 @@ theorem keyDetermines_necessary :
     exact absurd (h ("kernel.csv", 1) ("kernel.csv", 2) rfl) (by decide)
   · decide
 
+
+/-- **characterisation**: a cache `keyOf r ↦ loader r` is invisible (every request after every history answered as on a fresh module)
+EXACTLY when the key determines the content — any coarser key (a rounded number, a printed float, a file name without its directory,
+`id()` of an object that may be replaced) is visible on some history of length one -/
+theorem keyDetermines_iff_history_free (keyOf : ι → κ) (loader : ι → ν) :
+    KeyDetermines keyOf loader ↔
+      ∀ rs r, (load keyOf loader (Loaded.after keyOf loader [] rs) r).1 = (load keyOf loader [] r).1 := by
+  constructor
+  · intro hk rs r
+    exact loaded_history_free keyOf loader hk rs r
+  · intro h r r' e
+    have := h [r] r'
+    simp only [Loaded.after, List.foldl_cons, List.foldl_nil, load, List.lookup_nil, List.lookup_cons, e, beq_self_eq_true] at this
+    exact this
+
+/-- the same witness for a COARSENED numeric argument: a table keyed by the temperature rounded down to 0.1 K (temperatures in mK)
+answers 77.344 K with the entry of 77.300 K -/
+theorem coarsenedKey_not_transparent :
+    ¬ KeyDetermines (fun t : ℕ => t / 100) (fun t => 13 * t) ∧
+    (load (fun t : ℕ => t / 100) (fun t => 13 * t) (Loaded.after (fun t : ℕ => t / 100) (fun t => 13 * t) [] [77300]) 77344).1
+      ≠ (load (fun t : ℕ => t / 100) (fun t => 13 * t) [] 77344).1 := by
+  constructor
+  · intro h
+    exact absurd (h 77300 77344 (by decide)) (by decide)
+  · decide
+
 /-- non-vacuity: the code keys by the full name / path (`keyOf = id`), which determines the content -/
 example (loader : String → ν) : KeyDetermines (id : String → String) loader := by
   intro r r' h
@@ -406,9 +595,9 @@ end LoadedSec
 
 section SessionSec
 open Session
-variable {οi οa ι κ ν : Type} [DecidableEq κ]
+variable {ψ οi οa ι κ ν : Type} [DecidableEq κ]
 
-theorem session_preserves_obs (w : Session.World φ οi οa χ ρ ι κ ν) (o : Obs οi οa) (h : Hid φ κ ν) (q : Session.Query φ χ ι) :
+theorem session_preserves_obs (w : Session.World φ ψ οi οa χ ρ ι κ ν) (o : Obs οi οa) (h : Hid φ ψ κ ν) (q : Session.Query φ ψ χ ι) :
     (Session.step w o h q).2.1 = o := by
   cases q with
   | iso q => rfl
@@ -421,8 +610,8 @@ theorem session_preserves_obs (w : Session.World φ οi οa χ ρ ι κ ν) (o :
 accessor calls and reference-curve / kernel requests, issued in any order with any arguments, (a) the observable state
 (isotherm content, adsorbate) is the original one and (b) every query has the outcome it has as the first call on fresh
 objects with empty module caches -/
-theorem session_history_free (w : Session.World φ οi οa χ ρ ι κ ν) (hp : Thermo.FullUpdate w.ads.policy)
-    (hk : Loaded.KeyDetermines w.keyOf w.loader) (o : Obs οi οa) (qs : List (Session.Query φ χ ι)) (q : Session.Query φ χ ι) :
+theorem session_history_free (w : Session.World φ ψ οi οa χ ρ ι κ ν) (hp : Thermo.FullUpdate w.ads.policy)
+    (hk : Loaded.KeyDetermines w.keyOf w.loader) (o : Obs οi οa) (qs : List (Session.Query φ ψ χ ι)) (q : Session.Query φ ψ χ ι) :
     (afterG (Session.step w) (o, Session.fresh) qs).1 = o ∧
     (Session.step w (afterG (Session.step w) (o, Session.fresh) qs).1 (afterG (Session.step w) (o, Session.fresh) qs).2 q).1
       = (Session.step w o Session.fresh q).1 := by
